@@ -102,13 +102,23 @@ static cJSON *xp[KN + 3]; static unsigned char ekey[KN + 3][PL + 2]; static unsi
 static int spec_find(const unsigned char *t) { unsigned i; for (i = 0; i < nexp; i++) if (strcmp((const char *)ekey[i], (const char *)t) == 0) return (int)i; return -1; }
 static void spec_remove_at(unsigned k) { unsigned i; for (i = k; i + 1 < nexp; i++) { xp[i] = xp[i + 1]; memcpy(ekey[i], ekey[i + 1], PL + 2); } nexp--; }
 static void spec_insert_at(unsigned k, cJSON *v, const unsigned char *key) { unsigned i; for (i = nexp; i > k; i--) { xp[i] = xp[i - 1]; memcpy(ekey[i], ekey[i - 1], PL + 2); } xp[k] = v; strcpy((char *)ekey[k], (const char *)key); nexp++; }
+/* what the resolver stub answers for its k-th call, computed from the MODEL (independent of whether the code under test called it) */
+static cJSON *spec_resolve(unsigned k)
+{
+    unsigned sel, i; cJSON *r = 0;
+    if (k >= 4) return 0;
+    sel = IN.gp_sel[k] % 6;
+    if (sel == 1) r = &P; else if (sel == 4) r = &scalar; else if (sel == 5) r = &root;
+    else if (sel == 2 || sel == 3) { cJSON *w = (sel - 2 < n) ? kidp[sel - 2] : 0; for (i = 0; i < nexp; i++) if (w != 0 && xp[i] == w) r = w; }
+    return r;
+}
 /* removal of the value at pointer p: 1 removed (node in *out), 0 refused, -1 outside the conformance claim */
 static int spec_remove(const unsigned char *p, unsigned *ci, cJSON **out)
 {
     unsigned char t[PL + 2]; size_t pl = 0; unsigned idx = 0; int lt = last_token(p, t, &pl), hit = -1; cJSON *par;
     if (lt < 0) return -1;
     if (lt == 0) return 0;                  /* no '/' at all: nothing is resolved, nothing detached */
-    par = *ci < gp_calls ? gp_ret[*ci] : 0; (*ci)++;
+    par = spec_resolve(*ci); (*ci)++;
     if (par != &P) return 0;                /* parent missing, a scalar, or a container without the member (root / leaf have no children here) */
     if (pkx == cJSON_Array) { if (index_token(t, &idx) && idx < nexp) hit = (int)idx; }
     else if (pkx == cJSON_Object) hit = spec_find(t);
@@ -168,7 +178,7 @@ int main(VF_MAIN_ARGS)
         int ok = 1, defined = 1, doc_defined = 1; unsigned ci = 0; cJSON *value = 0;
         if (!has_path || !has_op || OPC == 0) ok = 0;
         else if (OPC == 6) {
-            ok = (gp_calls >= 1 && gp_ret[0] != 0 && has_value && (IN.cmp & 1)) ? 1 : 0;
+            ok = (spec_resolve(0) != 0 && has_value && (IN.cmp & 1)) ? 1 : 0;
             VF_AP(16, cmp_calls == 1 && cmp_a == gp_ret[0] && (cmp_b == (has_value ? &m_value : 0)), "C16 test compares the value at path with the \"value\" member");
             VF_AP(16, strcmp(gp_text[0], pathbuf) == 0, "C16 test resolves exactly the given path");
         }
@@ -186,7 +196,7 @@ int main(VF_MAIN_ARGS)
                 if (OPC == 4 || OPC == 5) {
                     if (!has_from) ok = 0;
                     else if (OPC == 4) { int r = spec_remove((unsigned char *)frombuf, &ci, &value); if (r < 0) defined = 0; else if (!r) ok = 0; }
-                    else { cJSON *src = ci < gp_calls ? gp_ret[ci] : 0; if (ci < gp_calls) VF_AP(16, strcmp(gp_text[ci], frombuf) == 0, "C16 copy resolves exactly the \"from\" pointer"); ci++; if (src == 0 || !(IN.dup_ok & 1)) ok = 0; else { value = dup_ret; VF_AP(16, dup_arg == src, "C16 copy duplicates the value found at \"from\""); } }
+                    else { cJSON *src = spec_resolve(ci); if (ci < gp_calls) VF_AP(16, strcmp(gp_text[ci], frombuf) == 0, "C16 copy resolves exactly the \"from\" pointer"); ci++; if (src == 0 || !(IN.dup_ok & 1)) ok = 0; else { value = dup_ret; VF_AP(16, dup_arg == src, "C16 copy duplicates the value found at \"from\""); } }
                 } else { if (!has_value || !(IN.dup_ok & 1)) ok = 0; else { value = dup_ret; VF_AP(16, dup_arg == &m_value, "C16 add/replace duplicate the \"value\" member"); } }
             }
             if (ok && defined && OPC != 2) {
@@ -195,7 +205,7 @@ int main(VF_MAIN_ARGS)
                 if (lt < 0) defined = 0;
                 else if (lt == 0) ok = 0;
                 else {
-                    cJSON *par = ci < gp_calls ? gp_ret[ci] : 0; unsigned idx = 0;
+                    cJSON *par = spec_resolve(ci); unsigned idx = 0;
                     if (ci < gp_calls) VF_AP(16, strncmp(gp_text[ci], pathbuf, plen) == 0 && gp_text[ci][plen] == 0, "C16 the value is inserted below the parent pointer (path without its last token)");
                     ci++;
                     if (par == &P && pk == cJSON_Array) {
